@@ -4029,6 +4029,27 @@ class PyCdlib:
         if udf and udf != '2.60':
             raise pycdlibexception.PyCdlibInvalidInput('UDF value must be empty (no UDF), or 2.60')
 
+        try:
+            self._new(interchange_level, sys_ident, vol_ident, set_size, seqnum,
+                      log_block_size, vol_set_ident, pub_ident_str,
+                      preparer_ident_str, app_ident_str, copyright_file,
+                      abstract_file, bibli_file, vol_expire_date, app_use,
+                      joliet, rock_ridge, xa, udf)
+        except Exception:
+            # Some arguments are only validated while the descriptors are
+            # being created; a refused call leaves the object without an ISO.
+            self._initialize()
+            raise
+
+    def _new(self, interchange_level, sys_ident, vol_ident, set_size, seqnum,
+             log_block_size, vol_set_ident, pub_ident_str, preparer_ident_str,
+             app_ident_str, copyright_file, abstract_file, bibli_file,
+             vol_expire_date, app_use, joliet, rock_ridge, xa, udf):
+        # type: (int, str, str, int, int, int, str, str, str, str, str, str, str, Optional[float], str, Optional[int], Optional[str], bool, Optional[str]) -> None
+        """
+        An internal method to create a new ISO from scratch; see new() for the
+        parameters, which have been checked for basic validity.
+        """
         if not app_ident_str:
             app_ident_str = 'PyCdlib (C) 2015-2020 Chris Lalancette'
 
